@@ -57,7 +57,10 @@ def judge(v, records, sc, tag):
                 if imports_other:
                     stats["C09nt"] += 1
                 if not g_["compiled"]:
-                    findings.append({"prop": "C09", "id": r["id"], "what": "route generation for %s succeeded but the file does not compile: %s" % (e, (g_.get("buildErr") or "")[:400])})
+                    names = [(x["name"], x["pkg"]) for x in r["case"]["ctrls"] if not x.get("outside")]
+                    twins = any(a[0] == b[0] and a[1] != b[1] for a in names for b in names)
+                    findings.append({"prop": "C09", "id": r["id"], "twins": twins,
+                                     "what": "route generation for %s succeeded but the file does not compile: %s" % (e, (g_.get("buildErr") or "")[:400])})
                 if g_["pkg"] and g_["gofmt"]:
                     findings.append({"prop": "C09", "id": r["id"], "class": "known:not-gofmt-clean", "what": "the routes file for %s is not gofmt-formatted" % e})
         stats["requests"] += len(r.get("requests") or [])
@@ -100,7 +103,8 @@ KNOWN_RULES = [
     ("fiber-empty-header-is-absent", {"C12"}, lambda f: f.get("kind") == "token" and "empty" in f.get("toks", [])),
     # the same engine behaviour seen from C05: an OPTIONAL (pointer) non-string header sent with an empty value is not answered 422 on fiber
     ("fiber-empty-header-is-absent", {"C05"}, lambda f: f.get("engine") == "fiber" and f.get("kind") == "token" and "empty" in f.get("toks", []) and "not answered 422" in f.get("what", "")),
-    ("same-name-controllers-alias-collision", {"C09"}, lambda f: "redeclared in this block" in f.get("what", "")),
+    # (only for projects that really have two controllers of one struct name in two packages: any other redeclaration is a violation)
+    ("same-name-controllers-alias-collision", {"C09"}, lambda f: f.get("twins") and "redeclared in this block" in f.get("what", "")),
 ]
 
 
@@ -135,7 +139,7 @@ def build_recording(tier):
     cases = os.path.join(d, "cases.txt")
     open(cases, "w").close()
     plan = [("Pipeline_c04.cfg", None, 60 if thorough else 6), ("Pipeline_c01sim.cfg", 300 if thorough else 12, None),
-            ("Pipeline_sim.cfg", 500 if thorough else 12, None), ("Pipeline_c06sim.cfg", 400 if thorough else 12, None), ("Pipeline_c09sim.cfg", 300 if thorough else 12, None),
+            ("Pipeline_sim.cfg", 500 if thorough else 12, None), ("Pipeline_c06sim.cfg", 400 if thorough else 12, None), ("Pipeline_c09sim.cfg", 300 if thorough else 18, None),
             ("Pipeline_c06grp.cfg", None, 40 if thorough else 6)]
     for cfgname, sim, take in plan:
         out = os.path.join(sc, cfgname + ".rcases")
